@@ -203,19 +203,32 @@ def r2_rejection_effect_free(R) -> None:
             for e in on_path:
                 en = cfg.nodes[e]
                 p = cfg.some_path(e, r.id)
-                R.violation(q, f'effect-before-reject:{cls}<-{stmt_key(en.ast)}',
+                what_ = stmt_key(en.ast)
+                a_ = en.ast
+                if isinstance(a_, ast.Assign) and len(a_.targets) == 1 and isinstance(a_.targets[0], ast.Subscript) and isinstance(a_.value, ast.Subscript) \
+                        and text(a_.targets[0].value) == text(a_.value.value) and text(a_.targets[0].slice) == 't' \
+                        and affine(a_.value.slice) is not None and affine(a_.value.slice) == affine(expr('t + offset')):
+                    what_ = 'offset-copy'  # series[t] = series[t + offset], however the series is named
+                R.violation(q, f'effect-before-reject:{cls}<-{what_}',
                             f'the up-front rejection `{cls}` at L{r.lineno} can be raised after `{en.label()}` has already changed the model',
                             where=f'{fi.module.relpath}:{en.lineno}', path=cfg.describe_path(p) if p else None)
 
 
-def _feasibility(cfg, fi_name, where_fn, R, q, lags_atom, last_expr_srcs, pos_ok, raise_pred, base_shift=0):
+def _feasibility(cfg, fi_name, where_fn, R, q, lags_atom, last_expr_srcs, pos_ok, raise_pred, base_shift=0, read=None):
     """Find a test whose disjuncts are {P < lags, P > last - leads} (integer
-    canonical form; P = normalised 0-based position + base_shift)."""
+    canonical form; P = normalised 0-based position + base_shift).  `read(nid, atom, keep)`: the atom with locals
+    other than the position read through."""
     found = []
     for n in cfg.nodes:
         if n.kind != 'test':
             continue
         for atom in disj_atoms(n.ast):
+            if read is not None:
+                keep = tuple(x.id for x in ast.walk(atom) if isinstance(x, ast.Name) and pos_ok(n.id, x.id))
+                try:
+                    atom = read(n.id, atom, keep)
+                except Unsupported:
+                    pass
             c = cmp_of(atom)
             if c is None:
                 continue
@@ -239,7 +252,7 @@ def r3_feasibility_guard(R) -> None:
     found = _feasibility(
         sh.cfg, sh.q, sh.where, R, sh.q, 'self.lags',
         ['len(self.span) - 1 - self.leads', "len(self.__dict__['span']) - 1 - self.leads"],
-        lambda nid, nm: is_normalised_position(sh, nid, nm), None,
+        lambda nid, nm: is_normalised_position(sh, nid, nm), None, read=lambda nid, atom, keep: sh.value_at(nid, atom, keep=keep),
     )
     for which in ('lags', 'leads'):
         tn = [n for (w, n) in found if w == which]
